@@ -1145,6 +1145,19 @@ def c15(ctx):
                 "literal, nested interpolated literal, index; int / list / null) x up to %d slots, each compared "
                 "with the explicit concatenation, ->len() printed; byte laws on 6 strings; non-trivial = every case"
                 % (ml, ms))
+    # every two-character tail of a hex escape over digits, letters in and out of range, signs, blank, quote,
+    # characters whose code point ends in a hex digit's byte: two hex digits, nothing else
+    tails = ["0", "9", "a", "f", "A", "F", "g", "G", "+", "-", " ", "x", "\u00e9", "\u0141", "\u0131", "\u0661", "_", "\""]
+    htexts = sorted({"%s(%s\"%s\\x%s%s%s\")\n" % ("p", d, pre, c1, c2, post)
+                     for c1 in tails for c2 in tails for d in ("", "$") for pre, post in (("", ""), ("\u00e9", "z"))})
+    houts, hst = lx.spec_lex(htexts, "c15hex")
+    ctx.states += hst["distinct"]
+    ctx.transitions += hst["generated"]
+    ctx.models["SeedLexRun:c15hex"] = {"module": "SeedLexRun", "texts": len(htexts),
+                                       "distinct_states": hst["distinct"], "states_generated": hst["generated"]}
+    lx.check_texts(ctx, htexts, houts, "c15hex", "C15")
+    for t in htexts:
+        ctx.nontrivial.add("hex:" + t)
     specs = run_mc_lex(ctx, ml, "StrAlphabet", "MC_Lex_str%d" % ml, wraps="StrWraps",
                        extra_inv=("DecodeExact", "DecodeDomain"))
     texts = [lx.text_of(o["src"]) for o in specs]
